@@ -8,7 +8,7 @@ from util import call, quiet
 
 REQUIRED_THEOREMS = ['Usid.C01.coordinate_map', 'Usid.C01.coordinate_map_sorted', 'Usid.C01.wrapper_views',
                      'Usid.C01.toggle_involutive', 'Usid.C01.views_after_ops', 'Usid.C01.one_permutation']
-RULE = ('generator datasets (1-3 dimensions per side, sizes 1-4 biased to 1 and equal sizes, every storage permutation '
+RULE = ('[also: up to 4 dimensions per side, int32 data, a chunked main dataset, verbose=True, the wrapper read lazily, explicit ancillaries as numpy / h5py / dask objects or for one side only, the two-value return form] generator datasets (1-3 dimensions per side, sizes 1-4 biased to 1 and equal sizes, every storage permutation '
         'reachable, dtypes float64/float32/complex128/compound, built with raw h5py); reshape_to_n_dims for '
         'sort_dims x lazy, with HDF5 and in-memory ancillaries; USIDataset(sort_dims in {F,T}) followed by a random '
         'list of toggles and reads; non-trivial = some side has >= 2 dimensions of size > 1 stored in non-identity '
@@ -24,11 +24,16 @@ def generate(seed, tier):
     for i in range(n_cases):
         rng = derived_rng(seed, 'C01', i)
         while True:
-            ds = gen.gen_dataset(rng, max_dims=3, max_size=4, dtypes=('f8', 'f8', 'f4', 'c16', 'compound'), long_prob=0.12)
+            ds = gen.gen_dataset(rng, max_dims=(4 if i % 10 == 9 else 3), max_size=4,
+                                 dtypes=('f8', 'f8', 'f4', 'c16', 'compound', 'i4'), long_prob=0.12)
             if gen.n_points(ds['pos']) * gen.n_points(ds['spec']) <= 700:
                 break
         ops = [rng.choice(['toggle', 'read', 'toggle']) for _ in range(rng.randint(0, 5))]
-        cases.append({'ds': ds, 'ops': ops, 'sort_init': rng.random() < 0.5})
+        cases.append({'ds': ds, 'ops': ops, 'sort_init': rng.random() < 0.5,
+                      # a chunked main dataset (the lazy forms then have several chunks), verbose output, how the wrapper
+                      # is read (eager / lazy), how explicit ancillaries are handed over
+                      'chunked': rng.random() < 0.35, 'verbose': rng.random() < 0.2, 'wrapper_lazy': rng.random() < 0.4,
+                      'anc_as': rng.choice(['numpy', 'numpy', 'h5py', 'dask', 'pos_only', 'spec_only'])})
     return cases
 
 
@@ -47,26 +52,37 @@ def run_impl(inp, work):
     ds = inp['ds']
     path = os.path.join(work, 'a.h5')
     with h5py.File(path, 'w') as f:
-        gen.write_usid(f.create_group('G'), ds)
+        n_, m_ = gen.n_points(ds['pos']), gen.n_points(ds['spec'])
+        gen.write_usid(f.create_group('G'), ds, chunks=((max(1, (n_ + 1) // 2), max(1, (m_ + 1) // 2)) if inp.get('chunked') else None))
     out = {'free': {}, 'wrapper': None, 'mem': None}
+    vkw = {'verbose': True} if inp.get('verbose') else {}
     with h5py.File(path, 'r') as f:
         h5 = f['G/main']
         for sort in (False, True):
             for lazy in (False, True):
-                r = call(reshape_to_n_dims, h5, get_labels=True, sort_dims=sort, lazy=lazy)
+                with quiet():
+                    r = call(reshape_to_n_dims, h5, get_labels=True, sort_dims=sort, lazy=lazy, **vkw)
                 key = 'sort%d_lazy%d' % (sort, lazy)
                 if r[0] == 'err':
                     out['free'][key] = {'err': r[1]}
                 else:
                     nd, ok, labs = r[1]
                     out['free'][key] = dict(_arr(nd), labels=_labels(labs), success=(ok is True))
-        r = call(reshape_to_n_dims, h5, h5_pos=f['G/Position_Indices'][()], h5_spec=f['G/Spectroscopic_Indices'][()],
-                 get_labels=True)
+        import dask.array as da
+        hp, hs = f['G/Position_Indices'], f['G/Spectroscopic_Indices']
+        how = inp.get('anc_as', 'numpy')
+        akw = {'numpy': dict(h5_pos=hp[()], h5_spec=hs[()]), 'h5py': dict(h5_pos=hp, h5_spec=hs),
+               'dask': dict(h5_pos=da.from_array(hp[()], chunks=hp.shape), h5_spec=da.from_array(hs[()], chunks=hs.shape)),
+               'pos_only': dict(h5_pos=hp[()]), 'spec_only': dict(h5_spec=hs[()])}[how]
+        r = call(reshape_to_n_dims, h5, get_labels=True, **akw)
         if r[0] == 'err':
             out['mem'] = {'err': r[1]}
         else:
             nd, ok, labs = r[1]
             out['mem'] = dict(_arr(nd), labels=_labels(labs))
+        # the two-value return form, and the N-D form flattened to real numbers
+        r = call(reshape_to_n_dims, h5, sort_dims=inp['sort_init'])
+        out['two_tuple'] = (dict(_arr(r[1][0]), n=len(r[1])) if r[0] == 'ok' else {'err': r[1]})
         r = call(USIDataset, h5, sort_dims=inp['sort_init'])
         if r[0] == 'err':
             out['wrapper'] = {'err': r[1]}
@@ -74,7 +90,7 @@ def run_impl(inp, work):
             u = r[1]
 
             def snap():
-                rr = call(u.get_n_dim_form)
+                rr = call(u.get_n_dim_form, lazy=True) if inp.get('wrapper_lazy') else call(u.get_n_dim_form)
                 return {'labels': _labels(u.n_dim_labels), 'sizes': [int(x) for x in u.n_dim_sizes],
                         'view': _arr(rr[1]) if rr[0] == 'ok' else {'err': rr[1]}}
             snaps = [snap()]
@@ -91,8 +107,8 @@ def _check_view(inp, view, labels, sorted_view, what, fails, default_labels=Fals
     """the coordinate-map statement for one returned N-D array"""
     ds = inp['ds']
     pos, spec = ds['pos'], ds['spec']
-    plabs = ['Position Dimension %d' % i for i in range(len(pos['sizes']))] if default_labels else pos['labels']
-    slabs = ['Spectral Dimension %d' % i for i in range(len(spec['sizes']))] if default_labels else spec['labels']
+    plabs = ['Position Dimension %d' % i for i in range(len(pos['sizes']))] if default_labels in (True, 'both', 'pos') else pos['labels']
+    slabs = ['Spectral Dimension %d' % i for i in range(len(spec['sizes']))] if default_labels in (True, 'both', 'spec') else spec['labels']
     size_of = dict(zip(plabs + slabs, pos['sizes'] + spec['sizes']))
     n, m = gen.n_points(pos), gen.n_points(spec)
     if 'err' in view:
@@ -145,7 +161,15 @@ def oracle(inp, obs):
         a, b = obs['free']['sort%d_lazy0' % sort], obs['free']['sort%d_lazy1' % sort]
         if a != b:
             fails.append('lazy-eager: lazy and eager N-D forms differ (sort_dims=%s)' % bool(sort))
-    _check_view(inp, obs['mem'], obs['mem'].get('labels', []), False, 'in-memory-ancillaries', fails, default_labels=True)
+    how = inp.get('anc_as', 'numpy')
+    # labels are read from HDF5 ancillaries and generated ('Position Dimension 0' ...) for bare arrays, side by side
+    _check_view(inp, obs['mem'], obs['mem'].get('labels', []), False, 'explicit-ancillaries-%s' % how, fails,
+                default_labels={'numpy': 'both', 'dask': 'both', 'h5py': None, 'pos_only': 'pos', 'spec_only': 'spec'}[how])
+    tt = obs.get('two_tuple')
+    if tt is not None:
+        key = 'sort%d_lazy0' % int(bool(inp['sort_init']))
+        if 'err' in tt or tt.get('n') != 2 or (tt['shape'], tt['flat']) != (obs['free'][key].get('shape'), obs['free'][key].get('flat')):
+            fails.append('two-value-return: reshape_to_n_dims without get_labels does not return (the same N-D form, success)')
     w = obs['wrapper']
     if isinstance(w, dict):
         fails.append('wrapper-raises: USIDataset raised %s' % w['err'])
@@ -238,7 +262,7 @@ KNOWN_CLASSES = {'more_dims_than_points': _dims_gt_points}
 
 def distribution(cases, obs):
     d = {'sort_init': 0, 'toggles': 0, 'dims>points': 0, 'with_size1': 0, 'dtype:f8': 0, 'dtype:f4': 0, 'dtype:c16': 0,
-         'dtype:compound': 0, 'non_identity_rate': 0}
+         'dtype:compound': 0, 'dtype:i4': 0, 'non_identity_rate': 0}
     for c in cases:
         ds = c['ds']
         d['sort_init'] += c['sort_init']
